@@ -73,6 +73,8 @@ def call(fn: Any) -> Tuple[str, bool, Any]:
 def decode(code: str) -> Any:
     if code.startswith("s:"):
         return code[2:]
+    if code.startswith("h:"):
+        return code[2:] + "9" * 4400
     return {"n:1": 1, "l:": [], "null": None}[code]
 
 
@@ -87,7 +89,7 @@ def session(item: Tuple[str, Any]) -> Dict[str, Any]:
 
     lang, s = item
     if lang != "patch":
-        s = [{"EACUTE": "\u00e9", "SUPER2": "\u00b2"}.get(x, x) for x in s]
+        s = [{"EACUTE": "\u00e9", "SUPER2": "\u00b2", "HUGE": "9" * 4400}.get(x, x) for x in s]
     ev: List[Dict[str, Any]] = []
 
     def log(name: str, fn: Any) -> Any:
